@@ -3,6 +3,8 @@
 import QExPy.Driver.Json
 import QExPy.Driver.Expr
 import QExPy.Model.Plot
+import QExPy.Model.FitBase
+import QExPy.Generated.Fitters
 namespace QExPy.Drv
 open Lean QExPy QExPy.Plot
 
@@ -27,10 +29,20 @@ def getDataSet (j : Json) : R (DataSet FB) := do
          yunit := strD j "yunit", label := strD j "label" }
 
 def getFunc (j : Json) : R (Func FB) := do
-  let nodes ← getArr (← field j "nodes")
-  let root ← (← field j "root").getNat?
-  let es ← buildExpr nodes
-  let e ← match es[root]? with | some e => pure e | none => throw "bad root"
+  -- a pre-set fit model is the GENERATED `Gen.fitRule` (variable 0 = x, 1..k = parameters);
+  -- any other function arrives as expression nodes
+  let e ← match fieldD j "model" Json.null with
+    | Json.str name =>
+      match FitModel.ofName? name with
+      | some fm => do
+        let k ← (← field j "k").getNat?
+        pure (Gen.fitRule fm (Expr.var 0) ((List.range k).map fun i => Expr.var (i + 1)))
+      | none => throw s!"unknown pre-set fit model {name}"
+    | _ => do
+      let nodes ← getArr (← field j "nodes")
+      let root ← (← field j "root").getNat?
+      let es ← buildExpr nodes
+      match es[root]? with | some e => pure e | none => throw "bad root"
   let vals ← getFList (← field j "vals")
   let errs ← getFList (← field j "errs")
   let rhoJ ← getArr (fieldD j "rho" (Json.arr #[]))
